@@ -1,9 +1,123 @@
 import Driver.Proto
+import ScrapliModel.Netconf.Hello
 namespace Driver.C09
-open Scrapli
+open Scrapli Scrapli.Chan Scrapli.Netconf.Hello
+
+namespace C09
+
+def stripAnsi (b : Bytes) : Bytes := Rx.replaceAll Gen.Rx.Util.ansiPattern b []
+def delimRx (b : Bytes) : Bool := Rx.isMatch Gen.Rx.Netconf.v1Dot0Delim b
+def D : Bytes := Gen.Netconf.v1Dot0Delim
+
+/-- is the extracted delimiter pattern a plain literal, and which -/
+def reLiteral : Rx.Re → Option (List Nat)
+  | .lit r => some [r]
+  | .cat a b => do
+    let x ← reLiteral a
+    let y ← reLiteral b
+    pure (x ++ y)
+  | .empty => some []
+  | _ => none
+
+def delimIsLiteral : Bool :=
+  reLiteral Gen.Rx.Netconf.v1Dot0Delim == some (D.map (·.toNat))
+
+def optHex (s : String) : Option (Option Bytes) :=
+  if s == "~" then some none else (fromHex s).map some
+
+def verStr : Ver → String
+  | .v10 => "1.0"
+  | .v11 => "1.1"
+
+def showRes : Res → String
+  | .err .timeout => "timeout - . 0 -"
+  | .err .netconf => "netconf - . 0 -"
+  | .ok o => s!"ok {verStr o.ver} {showHexList o.caps} {o.sid} {toHex o.sent}"
+
+def prefOf (b : Bytes) : Option Pref :=
+  if b.isEmpty then some .none
+  else if b == Gen.Netconf.V1Dot0 then some .p10
+  else if b == Gen.Netconf.V1Dot1 then some .p11
+  else none
+
+def zipCaps : List Bytes → List Bytes → List (Bytes × Bytes)
+  | u :: us, w :: ws => (u, w) :: zipCaps us ws
+  | _, _ => []
+
+def normLayout (L : Layout) : Layout :=
+  { L with decl := L.decl.map dropCR, attrs := dropCR L.attrs, ws0 := dropCR L.ws0,
+           ws1 := dropCR L.ws1, ws2 := dropCR L.ws2, ws3 := dropCR L.ws3, ws4 := dropCR L.ws4,
+           caps := L.caps.map fun (u, w) => (u, dropCR w) }
+
+def ret : Bytes := Gen.Channel.DefaultReturnChar
+
+def handle : List String → String
+  | ["open", pref, depth, decl, pfx, attrs, w0, w1, w2, w3, w4, uris, wss, sid, suffix, chunks] =>
+    match fromHex pref, depth.toNat?, optHex decl, fromHex pfx, fromHex attrs, fromHex w0, fromHex w1,
+      fromHex w2, fromHex w3, fromHex w4, hexList uris, hexList wss, optHex sid, fromHex suffix,
+      hexList chunks with
+    | some pref, some depth, some decl, some pfx, some attrs, some w0, some w1, some w2, some w3,
+      some w4, some uris, some wss, some sid, some suffix, some chunks =>
+      let L : Layout := { decl := decl, pfx := pfx, attrs := attrs, ws0 := w0, ws1 := w1, ws2 := w2,
+                          ws3 := w3, ws4 := w4, caps := zipCaps uris wss, sid := sid }
+      let Ln := normLayout L
+      let chunksN := chunks.map (normalizeChunk stripAnsi)
+      let noEsc := chunks.all fun c => !c.contains ESC
+      let uriOK := uris.all fun u => !u.contains CR
+      let suffixN := dropCR suffix
+      let H := render Ln
+      let dom := Ln.ok && noEsc && uriOK && uris.length == wss.length && noLT suffixN &&
+        chunksN.flatten == H ++ D ++ suffixN && delimFirstAtEnd D H && windowOK D depth H suffixN &&
+        delimIsLiteral
+      let spec : String :=
+        match prefOf pref with
+        | none => "badoption - . 0 -"
+        | some p =>
+          let caps := Ln.caps.map Prod.fst
+          match sidValue Ln.sid, specVersion (hasCap caps Gen.Netconf.v1Dot0Cap) (hasCap caps Gen.Netconf.v1Dot1Cap) p with
+          | some n, some v => s!"ok {verStr v} {showHexList caps} {n} {toHex (clientHello v ++ ret)}"
+          | _, _ => "netconf - . 0 -"
+      let scan := openSession (parseHelloScan true) delimRx depth ret pref chunksN
+      let rx := openSession parseHello delimRx depth ret pref chunksN
+      s!"{b2s dom} {toHex (render L)} | {spec} | {showRes scan} | {showRes rx}"
+    | _, _, _, _, _, _, _, _, _, _, _, _, _, _, _ => "bad-op"
+  -- arbitrary bytes as the server's first message: model of the code only
+  | ["raw", pref, depth, chunks] =>
+    match fromHex pref, depth.toNat?, hexList chunks with
+    | some pref, some depth, some chunks =>
+      let chunksN := chunks.map (normalizeChunk stripAnsi)
+      let scan := openSession (parseHelloScan true) delimRx depth ret pref chunksN
+      let rx := openSession parseHello delimRx depth ret pref chunksN
+      s!"{showRes scan} | {showRes rx}"
+    | _, _, _ => "bad-op"
+  -- version decision alone: `ver <caps> <pref>` → optionOK result
+  | ["ver", caps, pref] =>
+    match hexList caps, fromHex pref with
+    | some caps, some pref =>
+      let r := match determineVersion caps pref with
+        | none => "err"
+        | some v => verStr v
+      s!"{b2s (prefOptionOK pref)} {r}"
+    | _, _ => "bad-op"
+  -- everything the client writes up to and including its first request
+  | ["wire", v, xml] =>
+    match (if v == "1.0" then some Ver.v10 else if v == "1.1" then some Ver.v11 else none), fromHex xml with
+    | some v, some xml =>
+      let w := requestWire v ret xml
+      let stream := ret ++ w
+      let dec := match v with
+        | .v10 => decodeOne10 stream
+        | .v11 => decodeOne11 stream
+      let decs := match dec with
+        | some (x, rest) => s!"{toHex x} {toHex rest}"
+        | none => "none -"
+      s!"{toHex (clientHello v ++ ret ++ w)} {decs}"
+    | _, _ => "bad-op"
+  | _ => "bad-op"
+
+end C09
 
 /-- line-protocol handler for property C09 (arguments after the leading `c09` token) -/
-def handleC09 : List String → String
-  | _ => "bad-op"
+def handleC09 (args : List String) : String := C09.handle args
 
 end Driver.C09
